@@ -32,6 +32,8 @@ COPIERS = {"copy.copy", "copy.deepcopy", "np.copy", "numpy.copy", "np.array", "n
 def _snapshot_vars(fn: FuncInfo) -> List[ast.Assign]:
     out = []
     for n in walk_shallow(fn.node):
+        if isinstance(n, ast.Assign) and isinstance(n.targets[0], ast.Name) and isinstance(n.value, ast.Attribute) and n.value.attr == "params":
+            out.append(n)  # a plain alias of the parameters: recognised as the snapshot, judged by _is_copy
         if isinstance(n, ast.Assign) and isinstance(n.targets[0], ast.Name) and isinstance(n.value, ast.Call):
             nm = attr_chain(n.value.func) or ""
             if n.value.args and (attr_chain(n.value.args[0]) or "").endswith(".params"):
@@ -43,6 +45,8 @@ def _snapshot_vars(fn: FuncInfo) -> List[ast.Assign]:
 
 def _is_copy(assign: ast.Assign) -> bool:
     v = assign.value
+    if not isinstance(v, ast.Call):
+        return False
     nm = attr_chain(v.func) or ""
     return nm in COPIERS or (isinstance(v.func, ast.Attribute) and v.func.attr == "copy")
 
